@@ -44,7 +44,7 @@ fn run(cfg: &TrkCfg, ls: &[Vec<Det>], h: &[Call]) -> Obs {
 
 pub fn run_check(tier: Tier) -> Report {
     let rep = Report::new("C05", tier);
-    rep.set_rule("(1) every history of depth <= 3 (Sort: 3 quick / 4 thorough) over predict(scene in {0,5}, one of 7 tie-free lists) for shard counts 2..8 against the 1-shard transcript (ids included for the simple trackers); (2) for Sort and VisualSort with 2 and 3 shards, IoU and Mahalanobis, histories of three calls with 2-3 detections (appearing, continuing, approaching, crossing objects): every schedule of the store workers and the caller at command granularity within each call in turn (window = one call; 3 shards: preemption bound 2 quick / 3 thorough; thorough also 4 shards at bound 2), plus a fine tier branching at every synchronisation operation with one preemption; oracle: records and the canonical store dump after every call equal the 1-shard default-schedule reference. states = executions.");
+    rep.set_rule("(1) every history of depth <= 3 (Sort: 3 quick / 4 thorough) over predict(scene in {0,5}, one of 7 tie-free lists) for shard counts 2..8 against the 1-shard transcript (ids included for the simple trackers); (2) for Sort and VisualSort with 2 and 3 shards, IoU and Mahalanobis, histories of three calls with 2-3 detections (appearing, continuing, approaching, crossing objects): every schedule of the store workers and the caller at command granularity within each call in turn (window = one call; 3 shards: preemption bound 2 quick / 3 thorough; thorough also 4 shards at bound 2), plus a fine tier branching at every synchronisation operation with at most 2 (thorough 3) departures from the default schedule; oracle: records and the canonical store dump after every call equal the 1-shard default-schedule reference. states = executions.");
     rep.assume("windows are joined by checked state equality: the dump after each call is identical under every schedule, so later windows are explored from the default-schedule representative");
     super::c04::run_c05_configs(&rep, tier);
 
@@ -123,24 +123,35 @@ pub fn run_check(tier: Tier) -> Report {
         ref_cfg.shards = 1;
         let (ls2, h2) = (ls.clone(), h.clone());
         let reference = sched::in_shuttle(move || run(&ref_cfg, &ls2, &h2)).unwrap_or_else(|e| machinery_error(&format!("C05 reference run failed: {e}")));
-        let ecfg = sched::ExploreCfg { mode: sched::Mode::Fine, count_all_deviations: true, window: (2, 2), bound: 1, deadline: Some(std::time::Instant::now() + std::time::Duration::from_secs_f64((rep.budget() - rep.elapsed()).max(1.0) * 0.5)), ..Default::default() };
-        let (ls2, h2, c2) = (ls.clone(), h.clone(), cfg.clone());
-        let scj = json!({"config":cfg.json(),"history":h,"granularity":"every synchronisation operation, at most one departure from the default schedule"});
-        let stats = sched::explore(&ecfg, move || run(&c2, &ls2, &h2), |x| match &x.outcome {
-            sched::Outcome::Done(o) => {
-                if o.recs != reference.recs || o.dumps != reference.dumps {
-                    rep.violation(Violation { key: "schedule/fine-tier-differs".into(), what: "records or store state differ from the reference".into(), replay: json!({"scenario":scj,"schedule":x.schedule_json()}) });
-                }
+        // deviation bound iterated 1, 2 (thorough: 3); each bound inside what is left of the wall budget
+        let fine_deadline = std::time::Instant::now() + std::time::Duration::from_secs_f64(((rep.budget() - rep.elapsed()).max(1.0) * 0.5).min(tier.pick(6.0, 400.0)));
+        let mut per_bound = vec![];
+        for bound in 1..=tier.pick(2usize, 3usize) {
+            if std::time::Instant::now() >= fine_deadline {
+                break;
             }
-            sched::Outcome::Machinery(m) => machinery_error(m),
-            other => rep.violation(Violation { key: "schedule/panic-or-deadlock".into(), what: format!("{other:?}").chars().take(400).collect(), replay: json!({"scenario":scj,"schedule":x.schedule_json()}) }),
-        });
-        total += stats.executions;
-        rep.add(stats.executions, stats.decision_points, stats.executions, 0);
-        if stats.truncated {
-            rep.cap_hit(&format!("fine tier {} truncated after {} schedules", kind.name(), stats.executions));
+            let ecfg = sched::ExploreCfg { mode: sched::Mode::Fine, count_all_deviations: true, window: (2, 2), bound, deadline: Some(fine_deadline), ..Default::default() };
+            let (ls2, h2, c2) = (ls.clone(), h.clone(), cfg.clone());
+            let scj = json!({"config":cfg.json(),"history":h,"granularity":format!("every synchronisation operation, at most {bound} departures from the default schedule")});
+            let reference = &reference;
+            let stats = sched::explore(&ecfg, move || run(&c2, &ls2, &h2), |x| match &x.outcome {
+                sched::Outcome::Done(o) => {
+                    if o.recs != reference.recs || o.dumps != reference.dumps {
+                        rep.violation(Violation { key: "schedule/fine-tier-differs".into(), what: "records or store state differ from the reference".into(), replay: json!({"scenario":scj,"schedule":x.schedule_json()}) });
+                    }
+                }
+                sched::Outcome::Machinery(m) => machinery_error(m),
+                other => rep.violation(Violation { key: "schedule/panic-or-deadlock".into(), what: format!("{other:?}").chars().take(400).collect(), replay: json!({"scenario":scj,"schedule":x.schedule_json()}) }),
+            });
+            total += stats.executions;
+            rep.add(stats.executions, stats.decision_points, stats.executions, 0);
+            per_bound.push(json!({"bound":bound,"schedules":stats.executions,"max_decision_points":stats.max_points,"complete":!stats.truncated}));
+            if stats.truncated {
+                rep.cap_hit(&format!("fine tier {}: deviation bound {bound} truncated after {} schedules", kind.name(), stats.executions));
+                break;
+            }
         }
-        scen.insert(format!("fine/{}", kind.name()), json!({"schedules":stats.executions,"max_decision_points":stats.max_points,"bound":1,"truncated":stats.truncated}));
+        scen.insert(format!("fine/{}", kind.name()), json!({"bounds":per_bound}));
     }
     rep.distinct_count(total);
     rep.extra("schedule_scenarios", json!(scen));
